@@ -89,6 +89,9 @@ pub struct SimCfg {
     pub link_down: Vec<LinkCfg>,
     /// shuffle the per-tick phase order of each endpoint
     pub shuffle_phases: bool,
+    /// percentage of (endpoint, tick) pairs in which the application does not flush (no get_packets_to_send): the next
+    /// flush then follows two or more update() calls
+    pub skip_send_pct: u64,
 }
 
 impl SimCfg {
@@ -123,6 +126,7 @@ impl SimCfg {
             "link_up": self.link_up.iter().map(|l| format!("{:?}/loss{}/dup{}/delay{}", l.profile, l.loss_pct, l.dup_pct, l.max_delay)).collect::<Vec<_>>(),
             "link_down": self.link_down.iter().map(|l| format!("{:?}/loss{}/dup{}/delay{}", l.profile, l.loss_pct, l.dup_pct, l.max_delay)).collect::<Vec<_>>(),
             "shuffle_phases": self.shuffle_phases,
+            "skip_send_pct": self.skip_send_pct,
         })
     }
 }
@@ -667,6 +671,9 @@ impl Sim {
             actions.sort_by_key(|a| (a.2, a.0, a.1));
         }
         for (c, d, ph) in actions {
+            if ph == 0 && self.cfg.skip_send_pct > 0 && self.rng.chance(self.cfg.skip_send_pct, 100) {
+                continue;
+            }
             match ph {
                 0 => self.do_send(c, d, mons, ctx, out),
                 1 => self.do_deliver(c, d, mons, ctx, out),
@@ -895,6 +902,7 @@ impl CfgGen {
             link_up,
             link_down,
             shuffle_phases: r.chance(1, 2),
+            skip_send_pct: 0,
         }
     }
 }
